@@ -33,8 +33,10 @@ def long_msg(rng, n, uplink):
     return bytes([0x7e, 0x00, 0x67 if uplink else 0x68, 0x01]) + n.to_bytes(2, "big") + rng.bytes(n)
 
 
-def pick_msg(rng, short):
-    ms = plain_msgs()
+def pick_msg(rng, short, gsm=False):
+    """gsm=True (uplink sender only): also plain 5GSM messages handed directly to the protection functions; on the downlink
+    a bare 5GSM message is not a NAS message a conformant AMF sends (5GSM travels inside DL NAS TRANSPORT)"""
+    ms = [m for m in plain_msgs() if gsm or m[0] == 0x7e]
     if short:
         ms = [m for m in ms if len(m) <= 24]
     return rng.choice(ms)
